@@ -177,14 +177,47 @@ func c18Auto(req *http.Request, obj any, k int) error {
 	if k%3 == 0 {
 		return binding.Auto(req, obj)
 	}
+	// for JSON and XML bodies also the explicit entry points (they bind the body and call the validator like Auto does)
+	// (only for requests with a body: for the other methods Auto binds the query string whatever the Content-Type)
+	explicit := 0
+	if req.Method == "POST" || req.Method == "PUT" || req.Method == "PATCH" {
+		switch req.Header.Get("Content-Type") {
+		case "application/json":
+			explicit = 1
+		case "application/xml":
+			explicit = 2
+		}
+	}
 	var err error
 	ran := false
 	r := rux.New()
 	r.Any(req.URL.Path, func(c *rux.Context) {
 		ran = true
-		if k%3 == 1 {
+		switch {
+		case explicit == 1 && k%7 == 3:
+			err = c.BindJSON(obj)
+		case explicit == 1 && k%7 == 4:
+			err = c.ShouldBind(obj, binding.JSON)
+		case explicit == 2 && k%7 == 3:
+			err = c.BindXML(obj)
+		case explicit == 2 && k%7 == 4:
+			err = c.ShouldBind(obj, binding.XML)
+		case explicit != 0 && k%7 == 5:
+			func() {
+				defer func() {
+					if e := recover(); e != nil {
+						err = fmt.Errorf("MustBind: %v", e)
+					}
+				}()
+				if explicit == 1 {
+					c.MustBind(obj, binding.JSON)
+				} else {
+					c.MustBind(obj, binding.XML)
+				}
+			}()
+		case k%3 == 1:
 			err = c.Bind(obj)
-		} else {
+		default:
 			err = c.AutoBind(obj)
 		}
 	})
